@@ -556,7 +556,7 @@ func c07Case(ctx *core.Ctx, r *gen.Rng, m *meta.Module, root *tree.SNode, yang s
 
 // C07: query parameters return exactly the defined projection of the full read.
 func C07(ctx *core.Ctx) error {
-	ctx.Rule = "query = (schema: generated with lists, defaults, leaf-lists, config-false sub-trees, or the hand-written one with config-false leaves and nested lists) x data x target selection (root, container, list entry) x parameter string: every depth 1..8, every content value, with-defaults, field-path expressions enumerated over the schema (nested, alternatives, groups, unknown names) for fields and fc.xfields, row windows (empty, inverted, open, out of range) on every list, fc.max-node-count around the container count, invalid values, all pairs and random triples of parameters; two spellings of the query string; via Constrain or Find(path?query); chains = the parameters given in 2-3 steps (Find(piece?q1) ... Find(rest?q2) / Constrain(q3), the path to the target split over the steps at random, steps without parameters included): a small depth or a tight fc.max-node-count first and another parameter later, the same parameter in two steps, a later depth, an invalid value in some step, random steps (fc.range in at most one step of a chain, except the two-windows chains: fc.range on the same list in two steps, known finding 1); list targets = the read starts at a LIST (not an entry) that holds rows (in a copy of the data whose first rows leave their leaves with a default unset): every depth 1..4(8), each parameter alone (windows with an empty selector naming the target list itself), pairs, chains; distinct by SHA-256 of the case term; non-trivial = at least one parameter and a non-empty target"
+	ctx.Rule = "query = (schema: generated with lists, defaults, leaf-lists, config-false sub-trees, or the hand-written one with config-false leaves and nested lists) x data x target selection (root, container, list entry) x parameter string: every depth 1..8, every content value, with-defaults, field-path expressions enumerated over the schema (nested, alternatives, groups, unknown names) for fields and fc.xfields, on a chain of eight nested containers also with a group (2-3 alternatives, alternatives that go deeper, nested groups, a tail, a second group) behind a prefix of EVERY length 1..7 and random expression trees, the parser alone (ParsePathExpression + String) on expression trees with prefixes of 0..12 segments before / between / inside groups and on unbalanced strings, row windows (empty, inverted, open, out of range) on every list, fc.max-node-count around the container count, invalid values, all pairs and random triples of parameters; two spellings of the query string; via Constrain or Find(path?query); chains = the parameters given in 2-3 steps (Find(piece?q1) ... Find(rest?q2) / Constrain(q3), the path to the target split over the steps at random, steps without parameters included): a small depth or a tight fc.max-node-count first and another parameter later, the same parameter in two steps, a later depth, an invalid value in some step, random steps (fc.range in at most one step of a chain, except the two-windows chains: fc.range on the same list in two steps, known finding 1); list targets = the read starts at a LIST (not an entry) that holds rows (in a copy of the data whose first rows leave their leaves with a default unset): every depth 1..4(8), each parameter alone (windows with an empty selector naming the target list itself), pairs, chains; distinct by SHA-256 of the case term; non-trivial = at least one parameter and a non-empty target"
 	ctx.ShardMax = 100000 // many small shards: the classification runs in parallel
 	c07Prelude = nil
 	defer func() {
@@ -751,5 +751,10 @@ func C07(ctx *core.Ctx) error {
 			}
 		}
 	}
+	// own random streams, derived from the seed only: the cases above do not depend on them
+	if err := c07DeepCases(ctx, gen.New(ctx.Seed*0x9E3779B97F4A7C15+0xDEE9)); err != nil {
+		return err
+	}
+	c07ParseCases(ctx, gen.New(ctx.Seed*0x9E3779B97F4A7C15+0x9A45E))
 	return nil
 }
